@@ -63,6 +63,13 @@ def check_dotdot(ctx, prog):
         has_dec = any(w.get('k') == 'call' and w.get('pq') == 'asl::Url::decode' for w in walk_expr(rhs))
         is_strip = any(w.get('k') == 'call' and w.get('pq') == 'asl::String::replace' and w.get('obj') is not None and strip_lv(w['obj']).get('f') == '_path' and lit(w['a'][0], '..') and
                        any(x.get('k') == 'str' and x.get('b') == [] for x in walk_expr(w['a'][1])) for w in walk_expr(rhs))
+        # `_path = Url::decode(x).replace("..", "")`: the strip is applied to the decoded text in the same expression
+        r0 = strip(rhs)
+        while r0.get('k') in ('cast', 'temp') or (r0.get('k') == 'construct' and len(r0.get('a', [])) == 1):
+            r0 = strip(r0['e'] if r0.get('k') != 'construct' else r0['a'][0])
+        if r0.get('k') == 'call' and r0.get('pq') == 'asl::String::replace' and lit(r0['a'][0], '..') and any(x.get('k') == 'str' and x.get('b') == [] for x in walk_expr(r0['a'][1])) and \
+                any(w.get('k') == 'call' and w.get('pq') == 'asl::Url::decode' for w in walk_expr(r0.get('obj') or {})):
+            return 'R'
         if has_dec:
             return 'D'
         if is_strip:
@@ -92,7 +99,7 @@ def check_dotdot(ctx, prog):
     reached, parent = cfgm.dataflow(cfg, 'unset', step, edge)
     ctx.evaluations += sum(len(v) for v in reached.values())
     exits = reached.get(cfg.exit.id, set())
-    anyd = any('decoded' in v for v in reached.values())
+    anyd = any('decoded' in v for v in reached.values()) or any(w.get('k') == 'call' and w.get('pq') == 'asl::Url::decode' for w in fn_exprs(f))
     if not anyd:
         raise AnalysisBroken('HttpRequest::read: no store of a percent-decoded value to _path')
     bad = [s_ for s_ in exits if s_ in ('decoded', 'dirty')]
@@ -275,34 +282,121 @@ def check_splitidx(ctx, prog):
 
 
 def check_query(ctx, prog):
+    """C09.query / R-NEGLEN: every two-argument substring(a, b) that cuts the request target (in HttpRequest::read and the file-local
+    helpers it calls) has a <= b for every combination of the positions involved that its guards admit.  Positions found by
+    indexOf are opaque integers >= -1; reassigned end markers are read through their if-converted reaching definition
+    (`end = n; if (h > 0) end = h;` is `(h > 0) ? h : n`)."""
+    import bytesets
     f = fn1(prog, 'asl::HttpRequest::read')
-    g = q.Guarded(f)
-    qs = [e for e in fn_exprs(f) if e.get('k') == 'call' and e.get('pq') == 'asl::String::operator=' and e.get('obj') is not None and strip_lv(e['obj']).get('f') == '_querystring']
-    if not qs:
-        raise AnalysisBroken('HttpRequest::read: query string store not found')
-    e = qs[0]
-    sub = [w for w in walk_expr(e) if w.get('k') == 'call' and w.get('pq') == 'asl::String::substring']
-    ok = False
-    why = 'query substring not found'
-    if sub:
-        a = strip(sub[0]['a'][0])
-        qv = strip(a['x']) if a.get('k') == 'bin' else a
-        ends = set(w['id'] for w in walk_expr(sub[0]['a'][1]) if w.get('k') == 'var') | set(w['id'] for w in walk_expr(q.expand(f, sub[0]['a'][1])) if w.get('k') == 'var')
-        bounded = set()
-        qv_x = pe(strip(q.expand(f, qv)))
-        for c, pol, kind in g.of(e):
-            if kind == 'if' and pol is True:
-                # the guard is read both as written and through single-assignment locals (hasQuery = q > 0 && q < end)
-                for part in conj(c) + conj(q.expand(f, c, bools_only=True)) + conj(q.expand(f, c)):
-                    part = strip(part)
-                    if part.get('k') == 'bin' and part.get('op') in ('<', '<=') and strip(part['y']).get('k') == 'var':
-                        lhs = strip(part['x'])
-                        if (lhs.get('k') == 'var' and lhs.get('id') == qv.get('id')) or pe(lhs) == qv_x:
-                            bounded.add(strip(part['y'])['id'])
-        ok = bool(bounded & ends)
-        why = "the query is cut as substring(%s, %s) without a guard that the '?' lies before the end used: for a '#' before the '?' the length is negative" % (pe(sub[0]['a'][0]), pe(sub[0]['a'][1]))
-    ctx.evaluations += 1
-    ctx.check(ok, 'C09.query', f['pq'], "read:'?' must lie before the fragment", fwhere(f, e['l']), 'query start bounded by the path end', why)
+    scope = [f]
+    for e in fn_exprs(f):
+        if e.get('k') == 'call' and e.get('fn') and not e.get('clsp'):
+            for h in prog.fn(e['fn'], e.get('sig')):
+                if h.get('body') and h not in scope and h.get('file') == f.get('file'):
+                    scope.append(h)
+    n = 0
+    for h in scope:
+        g = q.Guarded(h)
+        for e in fn_exprs(h):
+            if not (e.get('k') == 'call' and e.get('pq') == 'asl::String::substring' and len(e.get('a', [])) == 2):
+                continue
+            # only cuts whose bounds come from searches (indexOf) are at stake
+            both = [e['a'][0], e['a'][1]]
+            ex = [q.expand(h, x) for x in both]
+            def from_search(x):
+                return any(w.get('k') == 'call' and (w.get('pq') or '').endswith('::indexOf') for w in walk_expr(x))
+            assigned = bounded.assigned_vars(h)
+            defs = {}
+            for x in both:
+                for w in walk_expr(x):
+                    if w.get('k') == 'var' and w.get('id') in assigned and w['id'] not in defs:
+                        d_ = bounded.ifconv(h, g, w['id'], e)
+                        if d_ is not None:
+                            defs[w['id']] = d_
+            searched = any(from_search(x) for x in ex) or any(from_search(q.expand(h, d_)) for d_ in defs.values())
+            if not searched:
+                continue
+            n += 1
+            role = 'read:substring(%s, %s) never has a negative length' % (pe(both[0]), pe(both[1]))
+            try:
+                by_id, by_text = {}, {}
+
+                def collect(x, into_id, into_text, depth=0):
+                    bi, bt = bounded.atoms_of(prog, h, x, allow_assigned=tuple(assigned))
+                    for vid, nm in bi.items():
+                        if vid in defs:
+                            if depth < 4:
+                                collect(defs[vid], into_id, into_text, depth + 1)
+                        elif vid in assigned:
+                            raise bytesets.Undecidable('`%s` is reassigned in a way that is not if-convertible' % nm)
+                        else:
+                            into_id[vid] = nm
+                    into_text.update(bt)
+                for x in both:
+                    collect(x, by_id, by_text)
+                # guards that speak about these positions (others can only restrict further and are left out)
+                guards = []
+                for gd in g.of(e):
+                    c = gd[0]
+                    if not isinstance(c, dict) or gd[2] == 'case':
+                        continue
+                    gi, gt = {}, {}
+                    try:
+                        collect(c, gi, gt)
+                    except bytesets.Undecidable:
+                        continue
+                    if (set(gi) & set(by_id)) or (set(gt) & set(by_text)):
+                        guards.append(gd)
+                        if len(set(gi) | set(by_id)) + len(set(gt) | set(by_text)) <= 4:
+                            by_id.update(gi)
+                            by_text.update(gt)
+            except bytesets.Undecidable as u:
+                ctx.undecided('C09.query', h['pq'], role, fwhere(h, e['l']), str(u))
+                continue
+            if len(by_id) + len(by_text) > 4:
+                ctx.undecided('C09.query', h['pq'], role, fwhere(h, e['l']), 'depends on %d independent positions' % (len(by_id) + len(by_text)))
+                continue
+            import itertools
+            ids, texts = sorted(by_id), sorted(by_text)
+            bad = None
+            try:
+                def obj_of(t):
+                    return t.split('.indexOf(')[0] if '.indexOf(' in t else (t[:-len('.length()')] if t.endswith('.length()') else None)
+                for vals in itertools.product(range(-1, 7), repeat=len(ids) + len(texts)):
+                    tv = dict(zip(texts, vals[len(ids):]))
+                    # positions returned by indexOf lie in [-1, length); lengths are non-negative
+                    if any(t.endswith('.length()') and v < 0 for t, v in tv.items()):
+                        continue
+                    if any('.indexOf(' in t and (t2.endswith('.length()') and obj_of(t) == obj_of(t2) and v >= v2) for t, v in tv.items() for t2, v2 in tv.items()):
+                        continue
+                    ev = bounded.Bound(prog, h, dict(zip(ids, vals[:len(ids)])), tv, defs=defs)
+                    # indexOf(x, from) returns -1 or a position >= from
+                    skip = False
+                    for t, v in tv.items():
+                        node = by_text.get(t)
+                        if isinstance(node, dict) and (node.get('pq') or '').endswith('::indexOf') and len(node.get('a', [])) == 2 and v != -1:
+                            try:
+                                if v < ev.ev(node['a'][1]):
+                                    skip = True
+                            except bytesets.Undecidable:
+                                pass
+                    if skip:
+                        continue
+                    ctx.evaluations += 1
+                    if not bounded.admitted(ev, guards, g):
+                        continue
+                    a_, b_ = ev.ev(both[0]), ev.ev(both[1])
+                    if b_ < a_ and bad is None:
+                        w = dict((by_id[i], v) for i, v in zip(ids, vals[:len(ids)]))
+                        w.update(dict(zip(texts, vals[len(ids):])))
+                        bad = (a_, b_, w)
+            except bytesets.Undecidable as u:
+                ctx.undecided('C09.query', h['pq'], role, fwhere(h, e['l']), 'bounds not evaluable: %s' % u)
+                continue
+            ctx.check(bad is None, 'C09.query', h['pq'], role, fwhere(h, e['l']), 'start <= end for every admitted combination of positions',
+                      "the request target is cut as substring(%s, %s) with start %s > end %s for %s: for a '#' before the '?' (or similar) the length is negative"
+                      % (pe(both[0]), pe(both[1]), bad[0] if bad else '', bad[1] if bad else '', ', '.join('%s = %s' % kv for kv in sorted((bad[2] if bad else {}).items()))))
+    ctx.floor('C09.query target cuts', n, 1)
 
 
 def conj(c):
